@@ -69,13 +69,13 @@ Proof. change (ip_call (VFun (of_string "group")) ?x) with (sub_call rx_of_ip (V
 
 (* what the two theorems below use of the dispatcher, so that they hold for any dispatcher that answers these calls this way *)
 Definition ip_contract (pc : pyval -> pyval -> PyLib.res) (hrx : pyval) : Prop :=
-  (forall o m, pc (VFun (of_string "make_addr")) (VList [o; vstr m]) = match parse_ip m with Some x => Normal (VAddr (if v6 then 6 else 4) (Z.of_N x)) | None => Exc (ValueError []) end) /\
+  (forall a m, pc (VFun (of_string "make_addr")) (VList [eip v6 a; vstr m]) = match parse_ip m with Some x => Normal (VAddr (if v6 then 6 else 4) (Z.of_N x)) | None => Exc (ValueError []) end) /\
   (forall a x, same_static t a -> pc (VFun (of_string "should_anonymize")) (VList [eip v6 a; VInt (Z.of_N x)]) = Normal (VBool (if v6 then true else should_anonymize4 a x))) /\
   (forall a x, same_static t a -> pc (VFun (of_string "anonymize")) (VList [eip v6 a; VInt (Z.of_N x)]) =
      match anonymize_int a x with Ok (an', y) => Normal (VTuple [VInt (Z.of_N y); eip v6 an']) | Err => Exc KeyError end) /\
   (forall a x, same_static t a -> pc (VFun (of_string "deanonymize")) (VList [eip v6 a; VInt (Z.of_N x)]) =
      match deanonymize_int a x with Ok (an', y) => Normal (VTuple [VInt (Z.of_N y); eip v6 an']) | Err => Exc KeyError end) /\
-  (forall o y, pc (VFun (of_string "make_addr_from_int")) (VList [o; VInt (Z.of_N y)]) = Normal (vstr (print_ip y))) /\
+  (forall a y, pc (VFun (of_string "make_addr_from_int")) (VList [eip v6 a; VInt (Z.of_N y)]) = Normal (vstr (print_ip y))) /\
   (forall a, pc (VFun (of_string "get_addr_pattern")) (VList [eip v6 a]) = Normal hrx) /\
   (forall l, pc (VFun (of_string "finditer")) (VList [hrx; vstr l]) = Normal (VList (map (enc_match l hrx) (matches l (S (length l)) (if v6 then IPV6_RX else IPV4_RX) 0)))) /\
   (forall l a b, pc (VFun (of_string "group")) (VList [VTuple [hrx; vstr l; VInt (Z.of_nat a); VInt (Z.of_nat b)]; VInt 0]) = Normal (vstr (substr l a b))).
